@@ -4,7 +4,7 @@
    Proofs/ContOrderProofs.v (invariant Model/ContInv.v over the transition system Model/ContStore.v). *)
 From RipV Require Import Base.Prelude Model.Frames Model.Log Model.ContStore Model.ContInv Model.SessGuard
   Model.SeqCount Gen.AppendOps Proofs.LogProofs Proofs.ContStoreProofs Proofs.ContOrderProofs Proofs.SessGuardProofs
-  Proofs.SeqCountProofs.
+  Proofs.SeqCountProofs Model.WireRun Gen.RequestHead Proofs.RunSitesProofs Proofs.SeqHeadProofs.
 
 (* "0,1,2,.. no gap, no duplicate, in file order for every stream" and "a full validated replay
    succeeds" are the same statement: rip-log's validator decides Valid *)
@@ -370,6 +370,61 @@ Example c01_session_hypotheses_satisfiable :
   /\ sess_fresh empty_state ((session_prog w_cts_run, 7) :: w_sg_others)
   /\ sess_distinct ((session_prog w_cts_run, 7) :: w_sg_others).
 Proof. exact w_sg_hyps. Qed.
+
+(* ---- the head of a provider request: the capture frame behind RIP_OPENRESPONSES_DUMP_REQUEST is one more single emit site
+   (Model/WireRun.v: the statements of stream_openresponses_request that touch the run's counter, re-read on every run) ---- *)
+Theorem c01_current_request_head : gen_ok_request_head && wf_head gen_request_head = true.
+Proof. exact gen_request_head_ok. Qed.
+Print Assumptions c01_current_request_head.
+
+(* every program that is a concatenation of "build from the counter, emit, bump" sites numbers its frames c, c+1, .. and hands
+   the counter back at c + number of frames, from every counter value *)
+Theorem c01_run_of_sites_counter : forall (c : N) (p : list rstmt),
+  wf_run p = true ->
+  r_out (rrun c p) = WireRun.number c (sites_of p)
+  /\ nums_from c (r_out (rrun c p)) = true
+  /\ r_cnt (rrun c p) = c + N.of_nat (length (r_out (rrun c p))).
+Proof. exact run_numbered. Qed.
+Print Assumptions c01_run_of_sites_counter.
+
+(* a head that meets the obligation, switch on or off, IS a list of single emit sites of Model/SeqCount.v: a run made of any
+   sites and pipes in front of it, the head, any sites and pipes after it writes 0,1,2,.. *)
+Theorem c01_run_with_request_heads : forall (sid : N) (pre post : list seg) (h : head) (capture : bool),
+  forallb seg_ok pre = true -> forallb seg_ok post = true -> wf_head h = true ->
+  Valid (run_segs CutParsed sid 0 (pre ++ map SSite (head_kinds capture h) ++ post))
+  /\ (forall ck c, head_frames sid c capture h = run_segs ck sid c (map SSite (head_kinds capture h)))
+  /\ (forall c, r_cnt (rrun c (head_prog capture h)) = c + nlen (head_frames sid c capture h)).
+Proof. exact run_with_request_heads. Qed.
+Print Assumptions c01_run_with_request_heads.
+
+(* REFUTED when the capture frame is built first and emitted after request_started (the seeded change C01-11): with the switch
+   on the stream reads 0,1,1,3 and the validator rejects it; with the switch off nothing changes *)
+Theorem c01_capture_frame_emitted_late_refuted :
+  wf_head head_capture_emitted_late = false
+  /\ map seq (run_head_log 7 true head_capture_emitted_late) = [0; 1; 1; 3]
+  /\ map ety (run_head_log 7 true head_capture_emitted_late) = [ESessionStarted; EOpenResponsesRequestStarted; EOpenResponsesRequest; ESessionEnded]
+  /\ validate (run_head_log 7 true head_capture_emitted_late) = false
+  /\ validate (run_head_log 7 false head_capture_emitted_late) = true
+  /\ map seq (run_head_log 7 true head_code) = [0; 1; 2; 3]
+  /\ validate (run_head_log 7 true head_code) = true.
+Proof. exact head_capture_late_refuted. Qed.
+Print Assumptions c01_capture_frame_emitted_late_refuted.
+
+(* .. and when request_started is built before the capture frame and emitted after it (the seeded change C03-10) *)
+Theorem c01_request_started_built_early_refuted :
+  wf_head head_started_built_early = false
+  /\ map seq (run_head_log 7 true head_started_built_early) = [0; 1; 1; 3]
+  /\ map ety (run_head_log 7 true head_started_built_early) = [ESessionStarted; EOpenResponsesRequest; EOpenResponsesRequestStarted; ESessionEnded]
+  /\ validate (run_head_log 7 true head_started_built_early) = false
+  /\ validate (run_head_log 7 false head_started_built_early) = true.
+Proof. exact head_started_early_refuted. Qed.
+Print Assumptions c01_request_started_built_early_refuted.
+
+Example c01_request_head_example :
+  wf_head head_code = true /\ head_kinds true head_code = [EOpenResponsesRequest; EOpenResponsesRequestStarted]
+  /\ head_kinds false head_code = [EOpenResponsesRequestStarted]
+  /\ forallb seg_ok [SSite ESessionStarted] = true.
+Proof. exact request_head_example. Qed.
 
 (* non-vacuity: five concurrent actors on the empty store (create a thread, post to the newest listed
    thread, a run, two pumps of one task) meet every hypothesis, and one of their schedules writes 8
